@@ -2,8 +2,28 @@
    specified.  Property theorems only. *)
 From Coq Require Import List ZArith NArith Bool String.
 From WF Require Import Base.Bytes Sem.RangeSet Lang.Types Lang.Ast Lang.Context Sem.Funs
-     Sem.Compile Spec.Denote Spec.Typing Proofs.ExecProofs Proofs.CallProofs Proofs.FullProofs Proofs.FunsProofs.
+     Sem.Compile Spec.Denote Spec.Typing Proofs.ExecProofs Proofs.CallProofs Proofs.FullProofs Proofs.FunsProofs
+     Parse.Lex Parse.Parser Spec.Grammar Proofs.GrammarProofs Proofs.ParserClosed.
 Import ListNotations.
+
+(* Text level: a call written in the surface grammar (Spec/Grammar.v: name ( arg , arg ... ) [index]... where an
+   argument is a quoted byte string, a field or nested call with index accesses - [*] only in the first -, or a
+   logical expression that begins with `(`, `not` or `!`; arity, kinds and types as the definition demands)
+   parses to the call node the grammar assigns to it, arguments in source order, and executing the filter
+   gives its denotation (the implementation applied to the evaluated arguments, per element under [*]). *)
+Theorem C03_text_level : forall sch st text e c,
+  GFilter sch st text e -> ctx_ok sch c = true -> fns_ok sch ->
+  parse_filter sch st text = LOk e [] /\
+  exists b, run_filter sch e c = Some b /\ denote_filter sch e c = Some b.
+Proof.
+  intros sch st text e c HG Hc Hf. pose proof (filter_grammar_parses sch st text e HG) as Hp.
+  split; [exact Hp|]. apply filter_exec_is_denote; [|assumption|assumption].
+  pose proof (parse_filter_post sch st text) as P. rewrite Hp in P. exact (proj1 (proj1 P)).
+Qed.
+
+Example C03_text_level_instance :
+  GFilter gex2_sch default_settings gex2_text gex2_ast /\ parse_filter gex2_sch default_settings gex2_text = LOk gex2_ast [].
+Proof. split; [exact gex2_in_grammar|exact gex2_parses]. Qed.
 
 (* Filters with calls: the implementation is invoked with exactly the evaluated
    arguments in source order followed by the defaults of the omitted optional
